@@ -457,6 +457,7 @@ Definition set_proposal (p : prop) (signer : bytes) (n : node) : M :=
     if negb (p_height p =? height n) || negb (p_round p =? round n) then ret n
     else if 8 <=? step n then ret n
     else if negb (p_polround p =? -1) && ((p_polround p <? 0) || (p_round p <=? p_polround p)) then emit (OErr 1) n
+    else if (p_total p <? 0) || (22020096 <? p_total p) then emit (OErr 6) n   (* MaxBlockSize *)
     else
       match proposer (vals n) with
       | Panic w => Panic w
